@@ -684,3 +684,10 @@ Theorem recovers_tunnel_flag_and_parks : forall h trig act, Forall wf_ttransfer 
   rt_step (NStandby, false) (TMain (NOut trig true)) = ((NHandshaking, false), FRewritten) /\
   rt_step (NHandshaking, false) (TMain (NIn act)) = ((NHandshaking, false), FParked).
 Proof. intros h trig act Hwf. split; [apply recovers_tunnel_flag; exact Hwf | split; reflexivity]. Qed.
+
+(* resetToStandby starts with `if !r.relayStatus.CompareAndSwap(status, kRelayStandBy) { return }`:
+   rt_reset's "only from the expected state" is that guard (the translator reports the shape
+   instead of refusing to translate, so that a reset from any state breaks THIS lemma and the
+   models stay executable for the search engines of C13) *)
+Lemma reset_guard_src_ok : relayneg_reset_guard_is_cas = true.
+Proof. reflexivity. Qed.
